@@ -2,7 +2,7 @@
 
 # which argument positions of an op are module slots (-1 = "self" inside a callback)
 SLOT_ARGS = {
-    "reg": (0,), "dereg": (0,), "start": (0,), "pause": (0,), "resume": (0,), "stop": (0,), "obs_drop": (0,), "obs_drop_keep_handle": (0,), "fd_hup": (),
+    "reg": (0,), "dereg": (0,), "start": (0,), "pause": (0,), "resume": (0,), "stop": (0,), "obs_drop": (0,), "obs_drop_keep_handle": (0,), "fd_hup": (), "bind": (0, 1),
     "tb": (0,), "bsize": (0,), "btimeout": (0,), "become": (0,), "unbecome": (0,), "stash": (0,), "unstash": (0,),
     "tell": (0, 1), "publish": (0,), "pill": (0, 1), "sub": (0,), "unsub": (0,),
     "fd_reg": (0,), "fd_dereg": (0,), "tmr_reg": (0,), "tmr_dereg": (0,), "sgn_reg": (0,), "sgn_dereg": (0,),
